@@ -129,7 +129,7 @@ def compileExpr (sd : Defs) (wp c : Nat) : Expr → Out
   | .substruct e sub =>
     let names := sd.fields sub
     let E := compileExpr sd (wp + 1) c e
-    let tail : List Instr := if names.length = 0 then [] else [.MStructGet names.length, .MStructSet names.length]
+    let tail : List Instr := if names.length = 0 then [.Pop] else [.MStructGet names.length, .MStructSet names.length]
     ⟨.StructNew sub :: E.code ++ names.map (fun k => Instruction.Identifier k) ++ tail, E.defs, E.c⟩
   | .cast e to => let E := compileExpr sd wp c e; ⟨E.code ++ [.Cast to], E.defs, E.c⟩
   | .mtch scrut arms =>
